@@ -622,7 +622,7 @@ def gen_ops(seed: int, run: int, tier: str, with_faults: bool, registry: list[st
         reqs.append(f"fx::c15::big-{n}-{k}-{variant}-{r.randrange(1, 9)}")
     reqs += [r.choice(["fx::c15::net", "fx::c15::outer", "fx::c15::resconv_nchw", "fx::c15::cf_scan"])]
     # runtime parameters materialised as inputs, custom input/output names, double precision post-processing
-    reqs += r.sample(["fx::c15::autoflags", "fx::c15::named_io", "fx::c15::flat_f64", "fx::c15::fn_boundary_f64", "fx::c15::kwblock", "fx::c15::f16_cast_chain", "fx::c15::cond_dead_capture", "fx::c15::cond_unused_operand", "fx::c15::cf_cond", "fx::c15::cf_nested", "fx::c15::dead_chain", "fx::c15::dead_fn_call"], 4)
+    reqs += r.sample(["fx::c15::autoflags", "fx::c15::named_io", "fx::c15::flat_f64", "fx::c15::fn_boundary_f64", "fx::c15::kwblock", "fx::c15::f16_cast_chain", "fx::c15::cond_dead_capture", "fx::c15::cond_unused_operand", "fx::c15::cf_cond", "fx::c15::cf_nested", "fx::c15::dead_chain", "fx::c15::dead_fn_call", "fx::c15::nchw_named", "fx::c15::params_named", "fx::c15::f64_named"], 5)
     if registry:
         reqs += r.sample(registry, min(2, len(registry)))
     # three ordinary targets plus two whose names differ from "a.onnx" only by the suffix (no suffix, another
